@@ -89,20 +89,21 @@ WellFormed(e) ==
     /\ (NestedKey \notin DOMAIN e.con => e.tpi = NoTpi)
     /\ (~e.tpi.obj => e.tpi.keys = EmptyFn)
 
-\* the nested object survives (with its listed keys only) iff it is an object that has a listed key
+\* The nested rule (room version 11: "m.room.member ... additionally, it allows the `signed` key of the
+\* `third_party_invite` key").  What is listed is the key `signed` INSIDE third_party_invite; the key
+\* third_party_invite itself is listed by no algorithm.  Hence, for every shape of the value:
+\*   - an object that has `signed`      -> third_party_invite stays, holding exactly `signed` (value untouched,
+\*                                         whatever it is: {}, null, ...); every other nested key goes
+\*   - an object without `signed` ({} or only other keys) -> nothing listed is inside: the key goes altogether
+\*                                         ("removes everything else": no `third_party_invite: {}` is left behind)
+\*   - not an object (string, array, null, number)        -> the key goes
+\*   - algorithms 1-4, or any other event type            -> the key goes (m.room.create in algorithm 5 keeps
+\*                                                           its whole content, so there it stays as it is)
 NestedKept(a, e) ==
     /\ NestedKeep(a, e.type) # {}
     /\ NestedKey \in DOMAIN e.con
     /\ e.tpi.obj
     /\ DOMAIN e.tpi.keys \cap NestedKeep(a, e.type) # {}
-
-\* The specification says what to keep *inside* third_party_invite but not whether an object none of whose
-\* keys is kept stays as {} (some implementations keep `third_party_invite: {}`): nothing is demanded then.
-NestedUnspecified(a, e) ==
-    /\ NestedKeep(a, e.type) # {}
-    /\ NestedKey \in DOMAIN e.con
-    /\ e.tpi.obj
-    /\ DOMAIN e.tpi.keys \cap NestedKeep(a, e.type) = {}
 
 KeptContentKeys(a, e) ==
     IF KeepAllContent(a, e.type) THEN DOMAIN e.con
